@@ -533,13 +533,13 @@ func sv(s string) rt.Value  { return rt.StringValue(s) }
 
 func (e *env) pools() map[string][]rt.Value {
 	p := map[string][]rt.Value{}
-	for _, n := range []int64{1, 2, 3, 4, 5, 6, 7, 8, 9, 10, 15, 16, 17, 31, 32, 33, 63, 64, 65, 127, 128, 129, -1, -2} {
+	for _, n := range []int64{0, 1, 2, 3, 4, 5, 6, 7, 8, 9, 10, 15, 16, 17, 31, 32, 33, 63, 64, 65, 127, 128, 129, -1, -2} {
 		p["small"] = append(p["small"], iv(n))
 	}
 	for _, n := range []int64{1 << 31, 1<<31 + 1, 1 << 53, 1<<53 + 1, 1 << 62, math.MaxInt64, math.MinInt64, math.MaxInt64 - 1, -(1 << 53), 1000003} {
 		p["large"] = append(p["large"], iv(n))
 	}
-	for _, f := range []float64{1, 2, 3, 4, 8, 16, 17, -1, 9007199254740992, -9223372036854775808, 9223372036854775808, 1e100, 33} {
+	for _, f := range []float64{1, 2, 3, 4, 8, 16, 17, 0, math.Copysign(0, -1), -1, 9007199254740992, -9223372036854775808, 9223372036854775808, 1e100, 33} {
 		p["fint"] = append(p["fint"], fv(f))
 	}
 	for _, f := range []float64{0.5, 1.5, -2.25, 1e-300, math.Inf(1), math.Inf(-1), 2.5, 4503599627370495.5, math.SmallestNonzeroFloat64} {
@@ -553,8 +553,9 @@ func (e *env) pools() map[string][]rt.Value {
 	for _, r := range e.refs[:8] {
 		p["ref"] = append(p["ref"], r.v)
 	}
-	// two closures with equal code but different upvalue cells are different values
-	p["ref"] = append(p["ref"], e.refs[10].v, e.refs[11].v)
+	// two closures of one definition (equal values, one key), and two with equal code but different
+	// upvalue cells (different values)
+	p["ref"] = append(p["ref"], e.refs[8].v, e.refs[9].v, e.refs[10].v, e.refs[11].v)
 	p["bad"] = []rt.Value{rt.NilValue, fv(math.NaN())}
 	return p
 }
